@@ -7,8 +7,17 @@ mod report;
 mod systems;
 
 fn main() {
-    let args: Vec<String> = std::env::args().collect();
     engine::install_panic_hook();
+    // anything that panics outside the guarded subject calls is a machinery failure, never a verdict
+    if std::panic::catch_unwind(real_main).is_err() {
+        let msg = engine::LAST_PANIC.with(|p| p.borrow().clone());
+        eprintln!("MACHINERY: the harness itself panicked: {}", msg);
+        std::process::exit(2);
+    }
+}
+
+fn real_main() {
+    let args: Vec<String> = std::env::args().collect();
     if args.len() < 2 {
         eprintln!("usage: vcheck <PROPERTY> --tier quick|thorough | vcheck replay <file>");
         std::process::exit(2);
